@@ -8,6 +8,8 @@ import sys
 VERIF = os.path.dirname(os.path.dirname(os.path.abspath(__file__)))
 sys.path.insert(0, VERIF)
 
+from pyvc.driver import claimed_level, open_findings  # noqa: E402
+
 ALL = [f"C{i:02d}" for i in range(1, 31)]
 
 NOT_APPLICABLE = {
@@ -36,7 +38,15 @@ def main():
             na.append({"property_id": pid, "reason": getattr(mod, "NA_REASON", PENDING)})
             continue
         engines_props.append(pid)
-        level = getattr(mod, "LEVEL", "proof")
+        level = claimed_level(mod, pid)
+        text = getattr(mod, "LEVEL_TEXT", "")
+        note = getattr(mod, "LEVEL_NOTE", "")
+        opened = open_findings(pid)
+        if opened and getattr(mod, "LEVEL", "proof") == "proof":
+            text = (f"NOT a completed proof on the current tree: {len(opened)} obligation(s) are refuted by the real code and "
+                    "recorded as open known findings (printed as KNOWN-FINDING, exit 0); every other obligation is discharged "
+                    "for all inputs, and any other failing obligation is a VIOLATION. Method: " + text)
+            note = "open known findings: " + "; ".join(f["obligation"] for f in opened) + ". " + note
         checks.append({
             "property_id": pid,
             "quick_cmd": f"./check {pid} --tier quick",
@@ -46,10 +56,10 @@ def main():
             "engine": "pyvc",
             "level_claimed": {
                 "category": level,
-                "text": getattr(mod, "LEVEL_TEXT", ""),
+                "text": text,
                 "design_ref": getattr(mod, "DESIGN_REF", f"DESIGN.md section 3 ({pid})"),
             },
-            "level_note": getattr(mod, "LEVEL_NOTE", ""),
+            "level_note": note,
             "technique": getattr(mod, "TECHNIQUE", "contract-based deductive verification: VCs generated from the AST of the real functions, discharged by z3/cvc5"),
         })
     manifest = {
